@@ -140,7 +140,7 @@ def rust_str(t):
     return '"' + t.replace("\t", "\\t") + '"'
 
 
-def generate(tier, out_rs, out_meta, group=6, lex_group=4):
+def generate(tier, out_rs, out_meta, group=6, lex_group=1):
     sks = skeletons(tier)
     lex = lex_cases()
     meta = {"sk": {}, "lex": {}, "placeholders": PH}
@@ -175,7 +175,10 @@ def generate(tier, out_rs, out_meta, group=6, lex_group=4):
               f"fn {name}() {{", "    let sk: u16 = kani::any();", "    match sk {"]
         for i, (t, e) in enumerate(g):
             ex = "None" if e is None else ("Some(true)" if e else "Some(false)")
-            L.append(f"        {i} => check_ae_lex({rust_bytes(t)}, {ex}),")
+            # (the text is a prefix of a longer static: a zero-length slice at the very end of an
+            # object -- the trailing empty element of "gzip," -- makes pointer comparisons symbolic
+            # for CBMC and the split loop explodes)
+            L.append(f"        {i} => check_ae_lex(&{rust_bytes(t + bytes([0, 0]))}[..{len(t)}], {ex}),")
         L += ["        _ => kani::assume(false),", "    }", "}"]
     open(out_rs, "w").write("\n".join(L) + "\n")
     json.dump(meta, open(out_meta, "w"))
